@@ -6,6 +6,7 @@ import (
 	"strings"
 
 	"github.com/iancoleman/strcase"
+	"github.com/pentops/j5/gen/j5/schema/v1/schema_j5pb"
 	"github.com/pentops/j5/lib/j5reflect"
 	"google.golang.org/grpc/codes"
 	"google.golang.org/grpc/status"
@@ -44,6 +45,21 @@ func propertyAtPath(root j5reflect.Root, path string) (j5reflect.Property, error
 	return root.GetProperty(tail)
 }
 
+// queryScalar converts the text of a query parameter to the Go value its field
+// accepts. Query parameters are always text, and every scalar but bool
+// already accepts its text form.
+func queryScalar(schema schema_j5pb.IsField_Type, value string) interface{} {
+	if _, ok := schema.(*schema_j5pb.Field_Bool); ok {
+		switch value {
+		case "true":
+			return true
+		case "false":
+			return false
+		}
+	}
+	return value
+}
+
 func (c *Codec) decodeQuery(queryString url.Values, msg protoreflect.Message) error {
 	root, err := c.refl.NewRoot(msg)
 	if err != nil {
@@ -65,7 +81,7 @@ func (c *Codec) decodeQuery(queryString url.Values, msg protoreflect.Message) er
 			if len(values) > 1 {
 				return status.Error(codes.InvalidArgument, fmt.Sprintf("multiple values provided for non-repeated field %q", key))
 			}
-			err = scalar.SetGoValue(values[0])
+			err = scalar.SetGoValue(queryScalar(scalar.FieldSchema(), values[0]))
 			if err != nil {
 				return status.Error(codes.InvalidArgument, fmt.Sprintf("invalid value %q for field %q", values[0], key))
 			}
@@ -74,7 +90,7 @@ func (c *Codec) decodeQuery(queryString url.Values, msg protoreflect.Message) er
 
 		if array, ok := field.AsArrayOfScalar(); ok {
 			for _, value := range values {
-				_, err = array.AppendGoValue(value)
+				_, err = array.AppendGoValue(queryScalar(array.ItemSchema().ToJ5Field().Type, value))
 				if err != nil {
 					return status.Error(codes.InvalidArgument, fmt.Sprintf("invalid value %q for field %q", value, key))
 				}
